@@ -23,6 +23,7 @@
    Oracle-only part (check/props/c04.py): the winding-number statement for real renders, on
    adaptive octrees, with real vertex positions. *)
 From Coq Require Import Reals Lra List ZArith Bool.
+From LF Require Render.OctTreeSepH.
 From LF Require Render.OctTreeSep Render.OctTreeSepC Render.OctTreeSepE Render.OctTreeFace.
 From LF Require Import Render.Pruning Render.DCGrid Render.DCGridSem Render.DCBoundary.
 From LF Require Render.DCBoundaryCont.
@@ -384,3 +385,52 @@ Theorem C04_face3_reaches_every_quadruple : forall ins diag N A, oaxis N -> (A =
 Proof. exact face3_complete. Qed.
 End AdaptiveDCSep3.
 Print Assumptions AdaptiveDCSep3.C04_face3_reaches_every_quadruple.
+
+(* ------------------------------------------------------------------ *)
+(* (g) adaptive octrees: the mesh sits at ALL sign changes (full)       *)
+(* ------------------------------------------------------------------ *)
+(* The whole walk is complete (Render/OctTreeSepH1/H2/H4.v, one axis each: induction on the tree, 18 position cases at a branch -
+   both coordinates central: the edge recursion; one central: the face recursion on a quarter of the central plane; none: the
+   child), so the "_partial" theorems of (f) hold WITHOUT the central-line hypothesis: every sign-changing minimal edge between
+   leaves of a consistent tree - whatever mix of levels - forces four ambiguous leaves and yields the explicit quad of [load3],
+   non-empty when the leaves are distinct, IN THE MESH; and along any path of minimal edges between lattice points the number of
+   emitting edges is odd iff the ends differ in sign, their triangles being in the mesh.  Together with
+   C04_dc_adaptive_surface_at_sign_changes (soundness) and C04_dc_adaptive_no_holes this is the lattice-resolution statement
+   "the mesh separates inside from outside" on adaptive octrees.  Remaining hypotheses: [distinct3] (the four leaves around the
+   edge are distinct as required by push_triangle; not yet derived from geometry), the clear region boundary of no_holes. *)
+Module AdaptiveDCSep5.
+Import OctTree OctTreeGeom OctTreeNet OctTreeSem OctTreeSep OctTreeSepH.
+Local Open Scope Z_scope.
+
+
+Theorem C04_walk3_reaches_every_quadruple : forall ins diag A, oaxis A -> forall f t p o k0 a b c d s k,
+  oconsistent ins t o k0 -> (oheight t < f)%nat ->
+  In a (oleaves t p o k0) -> In b (oleaves t p o k0) -> In c (oleaves t p o k0) -> In d (oleaves t p o k0) ->
+  min_edge3 A a b c d s k ->
+  incl (load3 diag A (c_cell a) (c_cell b) (c_cell c) (c_cell d)) (walk3 diag f t p).
+Proof. exact walk3_complete. Qed.
+
+Theorem C04_adaptive_sign_changes_give_triangles : forall ins diag t k0 A a b c d s k,
+  oconsistent ins t (0, 0, 0) k0 -> oaxis A ->
+  In a (oleaves t [] (0, 0, 0) k0) -> In b (oleaves t [] (0, 0, 0) k0) ->
+  In c (oleaves t [] (0, 0, 0) k0) -> In d (oleaves t [] (0, 0, 0) k0) ->
+  min_edge3 A a b c d s k -> ins s <> ins (ostep A s (osize k)) ->
+  o_is_ambig (c_t a) = true /\ o_is_ambig (c_t b) = true /\ o_is_ambig (c_t c) = true /\ o_is_ambig (c_t d) = true /\
+  load3 diag A (c_cell a) (c_cell b) (c_cell c) (c_cell d) =
+    quad3 diag (ins s) (vtx3 (ins s) A a 0) (vtx3 (ins s) A b 1) (vtx3 (ins s) A c 2) (vtx3 (ins s) A d 3) /\
+  (distinct3 a b c d -> load3 diag A (c_cell a) (c_cell b) (c_cell c) (c_cell d) <> []) /\
+  incl (load3 diag A (c_cell a) (c_cell b) (c_cell c) (c_cell d)) (mesh_walk diag t).
+Proof. exact OctTreeSepH.adaptive_sign_changes_give_triangles. Qed.
+
+Theorem C04_adaptive_mesh_separates : forall ins diag t k0 l p q,
+  oconsistent ins t (0, 0, 0) k0 ->
+  Forall (step3_ok ins) l -> Forall s3_distinct l -> joins3 p l q ->
+  Nat.odd (length (emitting3 diag l)) = xorb (ins p) (ins q) /\
+  (forall e, In e l -> step3_in t k0 e -> incl (s3_load diag e) (mesh_walk diag t)).
+Proof. exact OctTreeSepH.adaptive_mesh_separates. Qed.
+
+End AdaptiveDCSep5.
+
+Print Assumptions AdaptiveDCSep5.C04_walk3_reaches_every_quadruple.
+Print Assumptions AdaptiveDCSep5.C04_adaptive_sign_changes_give_triangles.
+Print Assumptions AdaptiveDCSep5.C04_adaptive_mesh_separates.
